@@ -414,6 +414,11 @@ class DNSOutgoing:
         if self.state == STATE_FINISHED:
             return packets_data
 
+        # A previous call that raised (NamePartTooLongException, ...) left a
+        # partially written packet behind; start over instead of emitting it.
+        self._reset_for_next_packet()
+        del packets_data[:]
+
         questions_offset = 0
         answer_offset = 0
         authority_offset = 0
